@@ -2,7 +2,8 @@
 
 Nothing in /repo is edited: the planners are observed by (1) passing `max_mem` as an `int` subclass whose
 true division records the float quotient the code really computed, and (2) wrapping, inside this process
-only, the module globals `calculate_stage_chunks` (algorithm.py), `_multspace` / `floor` (rechunk.py) and
+only, the module globals `calculate_stage_chunks` (algorithm.py), `_multspace` / `floor` /
+`calculate_regular_stage_chunks` (rechunk.py) and
 the two planner names looked up by `ops._rechunk_plan`.
 """
 from __future__ import annotations
@@ -17,6 +18,7 @@ class Rec:
         self.num = None    # the numerator (max_mem) of all recorded divisions
         self.geo = {}      # stage_count -> (read, write, [tuples])
         self.ms = {}       # (start, stop, num) -> [quotients]
+        self.reg = {}      # stage_count -> (read, write, [tuples]) of calculate_regular_stage_chunks
         self.cur = None
         self.planner_calls = []   # (name, kwargs) for calls made through ops._rechunk_plan
         self.mixed_numerators = False
@@ -47,8 +49,15 @@ def recording():
     A = importlib.import_module("cubed.vendor.rechunker.algorithm")
 
     rec = Rec()
-    saved = (A.calculate_stage_chunks, R._multspace, R.floor, O.multistage_rechunking_plan, O.multistage_regular_rechunking_plan)
-    orig_csc, orig_ms, orig_floor, orig_irr, orig_reg = saved
+    saved = (A.calculate_stage_chunks, R._multspace, R.floor, O.multistage_rechunking_plan, O.multistage_regular_rechunking_plan,
+             R.calculate_regular_stage_chunks)
+    orig_csc, orig_ms, orig_floor, orig_irr, orig_reg, orig_crs = saved
+
+    def crs(read_chunks, write_chunks, stage_count=1):
+        out = orig_crs(read_chunks, write_chunks, stage_count)
+        # one planner call never repeats a stage_count, so this key is unambiguous
+        rec.reg[int(stage_count)] = (tuple(read_chunks), tuple(write_chunks), [tuple(int(c) for c in s) for s in out])
+        return out
 
     def csc(read_chunks, write_chunks, stage_count=1):
         out = orig_csc(read_chunks, write_chunks, stage_count)
@@ -79,6 +88,7 @@ def recording():
     A.calculate_stage_chunks = csc
     R._multspace = ms
     R.floor = fl
+    R.calculate_regular_stage_chunks = crs
     O.multistage_rechunking_plan = wrap_planner("irr", orig_irr)
     O.multistage_regular_rechunking_plan = wrap_planner("reg", orig_reg)
     REC = rec
@@ -88,7 +98,8 @@ def recording():
             yield rec
     finally:
         REC = None
-        A.calculate_stage_chunks, R._multspace, R.floor, O.multistage_rechunking_plan, O.multistage_regular_rechunking_plan = saved
+        (A.calculate_stage_chunks, R._multspace, R.floor, O.multistage_rechunking_plan, O.multistage_regular_rechunking_plan,
+         R.calculate_regular_stage_chunks) = saved
 
 
 # canonical names of the outcomes (identical to the strings in Model/Rechunk.lean)
